@@ -29,7 +29,7 @@ def itemsN (var : XmlVar) (x : Val) : List Val :=
   | .list xs =>
     if var.tokens then
       (match xs with
-       | [] => if var.nillable then [x] else []
+       | [] => if var.nillable && !var.listElement then [x] else []
        | .list _ :: _ => xs
        | _ => [x])
     else xs
@@ -107,7 +107,7 @@ theorem genValue_chunk (e : BEnv) (Γ : Ctx) (cfg : SerCfg) {m : XmlMeta} {var :
     cases ys with
     | nil =>
       by_cases hn : var.nillable = true
-      · simp [itemsN, ht, hn, itemGen, genValue, hf.mixed, VarCore.isText, hf.isElem, Val.truthy,
+      · simp [itemsN, ht, hn, hl, itemGen, genValue, hf.mixed, VarCore.isText, hf.isElem, Val.truthy,
           Except.map, bind, Except.bind, pure, Except.pure]
         cases convertElement var.toVarCore (Val.list []) <;> simp
       · have hn' : var.nillable = false := by simpa using hn
@@ -122,13 +122,8 @@ theorem genValue_chunk (e : BEnv) (Γ : Ctx) (cfg : SerCfg) {m : XmlMeta} {var :
   | tokLists yss ht hl hyss =>
     cases yss with
     | nil =>
-      by_cases hn : var.nillable = true
-      · simp [itemsN, ht, hn, itemGen, genValue, hf.mixed, VarCore.isText, hf.isElem, Val.truthy,
-          Except.map, bind, Except.bind, pure, Except.pure]
-        cases convertElement var.toVarCore (Val.list []) <;> simp
-      · have hn' : var.nillable = false := by simpa using hn
-        simp [itemsN, ht, hn', genValue, hf.mixed, VarCore.isText, hf.isElem, Val.truthy, Except.map,
-          pure, Except.pure]
+      simp [itemsN, ht, hl, genValue, hf.mixed, VarCore.isText, hf.isElem, Val.truthy, Except.map,
+        pure, Except.pure]
     | cons a l =>
       obtain ⟨ys, rfl⟩ := hyss a (by simp)
       rw [hgen_t ht]
@@ -143,9 +138,10 @@ def chunkTrees (M : NsMap) (tr : Val → Tree) (var : XmlVar) (x : Val) : List T
   | some w => [.node w [] M none ((itemsN var x).map tr) none]
 
 /-- generator + writer of one emitted `(var, value)` pair, from its items -/
-theorem varGN (e : BEnv) (Γ : Ctx) (cfg : SerCfg) (M : NsMap) (ns : Option Str) (tr : Val → Tree)
-    {m : XmlMeta} {var : XmlVar} (hf : ElemFactsN m var) {x : Val} (hs : Shape var x)
-    (hx : x ≠ .none ∨ var.nillable = true) (f : Nat)
+theorem varGN' (e : BEnv) (Γ : Ctx) (cfg : SerCfg) (M : NsMap) (ns : Option Str) (tr : Val → Tree)
+    {var : XmlVar} {x : Val} (f : Nat)
+    (hchunk : genValue e Γ cfg (f + 1) x var ns =
+      ((itemsN var x).mapM (itemGen e Γ cfg var ns (chunkFuel x f))).map List.flatten)
     (hitems : ∀ y ∈ itemsN var x, ∃ evs,
       itemGen e Γ cfg var ns (chunkFuel x f) y = .ok evs ∧
       SubW M (isDatatype Γ) evs (treeSax (tr y))) :
@@ -156,7 +152,7 @@ theorem varGN (e : BEnv) (Γ : Ctx) (cfg : SerCfg) (M : NsMap) (ns : Option Str)
     (itemGen e Γ cfg var ns (chunkFuel x f))
     (fun y evs => SubW M (isDatatype Γ) evs (treeSax (tr y))) (itemsN var x) hitems
   have hinner : genValue e Γ cfg (f + 1) x var ns = .ok parts.flatten := by
-    rw [genValue_chunk e Γ cfg hf hs hx ns f, hparts]; rfl
+    rw [hchunk, hparts]; rfl
   have hbody : BodyW M (isDatatype Γ) parts.flatten (treesSax ((itemsN var x).map tr)) := by
     rw [treesSax_map]
     exact BodyW_forall₂ (fun y => treeSax (tr y)) _ parts (hall.mono (fun _ _ h => h.body))
@@ -177,6 +173,69 @@ theorem varGN (e : BEnv) (Γ : Ctx) (cfg : SerCfg) (M : NsMap) (ns : Option Str)
       (by simpa [nilAttr] using AttrsW_nil M (isDatatype Γ)) (by simp) hbody
     simpa [chunkTrees, hw, treeSax, treesSax, nilAttr] using this.body
 
+/-- generator + writer of one emitted `(var, value)` pair of an element var, from its items -/
+theorem varGN (e : BEnv) (Γ : Ctx) (cfg : SerCfg) (M : NsMap) (ns : Option Str) (tr : Val → Tree)
+    {m : XmlMeta} {var : XmlVar} (hf : ElemFactsN m var) {x : Val} (hs : Shape var x)
+    (hx : x ≠ .none ∨ var.nillable = true) (f : Nat)
+    (hitems : ∀ y ∈ itemsN var x, ∃ evs,
+      itemGen e Γ cfg var ns (chunkFuel x f) y = .ok evs ∧
+      SubW M (isDatatype Γ) evs (treeSax (tr y))) :
+    ∃ evs, genField e Γ cfg (f + 1) ns (var, x) = .ok evs ∧
+      BodyW M (isDatatype Γ) evs (treesSax (chunkTrees M tr var x)) ∧
+      (chunkTrees M tr var x = [] → evs = []) :=
+  varGN' e Γ cfg M ns tr f (genValue_chunk e Γ cfg hf hs hx ns f) hitems
+
+/-- `convert_value` of the value of a list wildcard = its items one after the other -/
+theorem genValue_chunk_wild (e : BEnv) (Γ : Ctx) (cfg : SerCfg) {var : XmlVar}
+    (hk : var.kind = .wildcard) (hmix : var.mixed = false) (htok : var.tokens = false)
+    (hl : var.listElement = true) (xs : List Val) (ns : Option Str) (f : Nat) :
+    genValue e Γ cfg (f + 1) (.list xs) var ns =
+      ((itemsN var (.list xs)).mapM (itemGen e Γ cfg var ns (chunkFuel (.list xs) f))).map List.flatten := by
+  have hgen : itemGen e Γ cfg var ns (chunkFuel (.list xs) f) = fun y => genValue e Γ cfg f y var ns := by
+    funext y; simp [itemGen, htok, chunkFuel, Val.isArray]
+  rw [hgen]
+  simp [itemsN, htok, genValue, hmix, VarCore.isText, VarCore.isElements, hk, Val.isArray, hl,
+    bind, Except.bind, pure, Except.pure, Except.map]
+
+/-- one generic item of a wildcard var: `convert_any_type` -/
+theorem genValue_any_wild (e : BEnv) (Γ : Ctx) (cfg : SerCfg) {var : XmlVar}
+    (hk : var.kind = .wildcard) (hmix : var.mixed = false) (htok : var.tokens = false)
+    (q : Option QN) (t tl : Option Str) (a : List (QN × Str)) (kids : List Val) (ns : Option Str) (f : Nat) :
+    genValue e Γ cfg (f + 1) (.any q t tl a kids) var ns = genAnyType e Γ cfg f (.any q t tl a kids) var ns := by
+  simp [genValue, hmix, htok, VarCore.isText, VarCore.isElements, hk, Val.isArray]
+
+/-- `convert_value` of a field value of `var` = its items one after the other -/
+def ChunkEq (e : BEnv) (Γ : Ctx) (cfg : SerCfg) (var : XmlVar) : Prop :=
+  ∀ (x : Val), Shape var x → (x ≠ .none ∨ var.nillable = true) → ∀ (ns : Option Str) (f : Nat),
+    genValue e Γ cfg (f + 1) x var ns =
+      ((itemsN var x).mapM (itemGen e Γ cfg var ns (chunkFuel x f))).map List.flatten
+
+theorem chunkEq_elem (e : BEnv) (Γ : Ctx) (cfg : SerCfg) {m : XmlMeta} {var : XmlVar}
+    (hf : ElemFactsN m var) : ChunkEq e Γ cfg var :=
+  fun _ hs hx ns f => genValue_chunk e Γ cfg hf hs hx ns f
+
+theorem chunkEq_wild (e : BEnv) (Γ : Ctx) (cfg : SerCfg) {var : XmlVar}
+    (hk : var.kind = .wildcard) (hmix : var.mixed = false) (htok : var.tokens = false)
+    (hl : var.listElement = true) : ChunkEq e Γ cfg var := by
+  intro x hs hx ns f
+  cases hs with
+  | none _ h => rw [hl] at h; cases h
+  | prim p _ h => rw [hl] at h; cases h
+  | obj c fs _ h => rw [hl] at h; cases h
+  | toks ys h _ _ => rw [htok] at h; cases h
+  | tokLists yss h _ _ => rw [htok] at h; cases h
+  | list xs _ _ _ => exact genValue_chunk_wild e Γ cfg hk hmix htok hl xs ns f
+  | seqItem ht _ hy =>
+    have hitems : itemsN var x = [x] := by
+      cases x with
+      | none =>
+        have hn : var.nillable = true := by rcases hx with h | h; exact absurd rfl h; exact h
+        simp [itemsN, hn]
+      | list xs => simp [Val.isArray] at hy
+      | _ => rfl
+    simp [hitems, itemGen, ht, chunkFuel, hy, Except.map, bind, Except.bind, pure, Except.pure]
+    cases genValue e Γ cfg (f + 1) x var ns <;> simp
+
 /-! ### single items of non-token vars -/
 
 theorem genValue_primItem (e : BEnv) (Γ : Ctx) (cfg : SerCfg) {m : XmlMeta} {var : XmlVar}
@@ -191,7 +250,7 @@ theorem genValue_objN (e : BEnv) (Γ : Ctx) (cfg : SerCfg) {m : XmlMeta} {var : 
     (hf : ElemFactsN m var) (ht : var.tokens = false) (c : ClassId) (fields : List (Str × Val))
     (ns : Option Str) (hty : var.types = [.cls c]) (f : Nat) :
     genValue e Γ cfg (f + 3) (.obj c fields) var ns =
-      genObj e Γ cfg f (.obj c fields) ns (some var.qname) var.nillable none := by
+      genObj e Γ cfg f (.obj c fields) ns (some var.qname) false none := by
   simp [genValue, genAnyType, genXsiElement, hf.mixed, ht, VarCore.isText, VarCore.isElements,
     VarCore.isElement, VarCore.isWildcard, hf.isElem, Val.isArray, hty,
     bind, Except.bind, pure, Except.pure]
@@ -202,8 +261,7 @@ theorem genValue_objD (e : BEnv) (Γ : Ctx) (cfg : SerCfg) {m : XmlMeta} {var : 
     (ns : Option Str) (hty : var.types = [.cls c]) (hcl : var.clazz = some c) (hne : cls ≠ c)
     (hder : Γ.isDerived cls c = true) {mg : XmlMeta} (hfetch : Γ.fetch cls ns none = .ok mg) (f : Nat) :
     genValue e Γ cfg (f + 3) (.obj cls fields) var ns =
-      genObj e Γ cfg f (.obj cls fields) ns (some var.qname) var.nillable
-        (realXsiType var.qname mg.targetQName) := by
+      genObj e Γ cfg f (.obj cls fields) ns (some var.qname) false mg.targetQName := by
   have hbeq : (TypeRef.cls cls == TypeRef.cls c) = false := by
     rw [beq_eq_false_iff_ne]; intro h; cases h; exact hne rfl
   have hc : ([TypeRef.cls c].contains (TypeRef.cls cls)) = false := by
